@@ -34,7 +34,10 @@ def u_extrusion(ctx):
     rv = x2.call_fn(node, [origin, target, pref, sref], {}, st2, closure=hook.env, qual="extrusion_hook.<locals>.hook_function")
     exits = list(x2.exits) + ([] if st2.dead else [__import__("pyvc.state", fromlist=["Exit"]).Exit("return", st2.pc, rv, st2.snap(), list(st2.log), None, "hook_function")])
     covers(ctx, exits); never_raises(ctx, exits)
-    a, b, h = x2.ghost["hypot"][0]
+    hy = x2.ghost["hypot"][0]
+    ctx.check("the hook measures the move with a two-argument hypot (XY length, not the 3-D length)", z3.BoolVal(len(hy) == 3), None, None, "post")
+    if len(hy) != 3: return
+    a, b, h = hy
     dx, dy = target.x.inner.val - origin.x.inner.val, target.y.inner.val - origin.y.inner.val
     ctx.check("the length fed to the formula is the XY distance between origin and target", AND(a.val == dx, b.val == dy), None, None, "post")
     pi = Fraction(math.pi)
